@@ -131,7 +131,7 @@ def _line_job(chunk):
     return out
 
 
-def _matrix_eval(pe, mods, fn_path, m, with_transpose=False):
+def _matrix_eval(pe, mods, fn_path, m, with_transpose=False, extra=None):
     n = len(m)
 
     def build(mm):
@@ -154,6 +154,8 @@ def _matrix_eval(pe, mods, fn_path, m, with_transpose=False):
     if with_transpose:
         qt = build(second)
         args.append(("ref", ("const", qt)))
+    if extra is not None:
+        args.append(mk_int(extra[0], extra[1]))
     pe.memo = {}
     r = pe.call(fn_path, args)
     if r.kind == "ret" and r.value != TOP and r.value[0] == "int":
@@ -162,7 +164,8 @@ def _matrix_eval(pe, mods, fn_path, m, with_transpose=False):
 
 
 def _matrix_job(job):
-    fn_path, mats, with_t = job
+    fn_path, mats, with_t = job[:3]
+    bound_ty = job[3] if len(job) > 3 else None  # score(candidate, transposed, bound: <integer type>)
     f = _G["facts"]
     pe = peval.PEval(f, max_steps=400_000_000)
     mods = _mods(pe)
@@ -170,8 +173,19 @@ def _matrix_job(job):
         return [("top", "module constructors/accessors do not fold", None)]
     out = []
     for m in mats:
-        k, v = _matrix_eval(pe, mods, fn_path, m, with_t)
-        out.append((k, v, m))
+        if bound_ty is None:
+            k, v = _matrix_eval(pe, mods, fn_path, m, with_t)
+            out.append((k, v, m))
+        else:
+            from .fold import ty_range
+            hi = ty_range(bound_ty)[1]
+            tot = model_total(m[0], m[1])
+            res = []
+            for c in ((hi, tot + 1, tot, max(tot - 1, 0), tot // 2, 1, 0) if len(m[0]) <= 8 else (hi, tot)):
+                k, v = _matrix_eval(pe, mods, fn_path, m, with_t, extra=(bound_ty, c))
+                res.append((c, k, v))
+                pe.heap = peval.Heap()
+            out.append(("bound", res, m))
         pe.heap = peval.Heap()
     return out
 
@@ -379,8 +393,10 @@ def c11_r9(ctx, f, rid="C11.R9"):
             a = sample(k)
             # even: the genuine transposed candidate; odd: an unrelated second symbol (tells which argument each term reads)
             mats.append((a, transpose(a) if k % 2 == 0 else sample(k + 1)))
+        sc_in = sc.raw.get("inputs") or []
+        bound_ty = sc_in[2] if len(sc_in) == 3 and sc_in[2] in ("u8", "u16", "u32", "u64", "usize") else None
         for part in _chunks(mats, ncpu):
-            jobs.append(("score::score", part, True))
+            jobs.append(("score::score", part, True) + ((bound_ty,) if bound_ty else ()))
         # symbols of real sizes with the ISO function-pattern layout (function modules at their fixed values, encoding region
         # pseudo-random with a bias): sums beyond any narrowed accumulator, every line width up to 177
         # (quick: up to V25, whose biased symbols already total more than 65 535 penalty points; V40 in the thorough tier)
@@ -388,20 +404,53 @@ def c11_r9(ctx, f, rid="C11.R9"):
         for v in big_v:
             for bias in ((0.5,) if v not in (1, 25, 40) else (0.5, 0.12, 1.0)):
                 a = _real_symbol(v, bias)
-                jobs.append(("score::score", [(a, transpose(a))], True))
+                jobs.append(("score::score", [(a, transpose(a))], True) + ((bound_ty,) if bound_ty else ()))
             if dm is not None and v in (25, 40):
                 for bias in (0.5, 0.03, 0.47, 0.97):
                     jobs.append(("score::dark_module_score", [_real_symbol(v, bias)], False))
         jobs.sort(key=lambda j: -max(len(m[0] if j[2] else m) for m in j[1]) ** 2 * len(j[1]))
+    contract = {"exact": 0, "bound": 0}
     res = cache.pmap(f, "score-matrices", _matrix_job, jobs, procs=ncpu)
     models = {"score::matrix_score_squares": lambda m: (model_squares(m),), "score::dark_module_score": lambda m: (model_dark(m),),
               # columns from the second argument (the crate's contract), or from the candidate itself (second argument unused)
               "score::score": lambda ab: (model_total(ab[0], ab[1]), model_total(ab[0]))}
     oks = {}
-    for (fn_path, mats, with_t), part in zip(jobs, res):
+    for job_, part in zip(jobs, res):
+        fn_path, mats, with_t = job_[:3]
         fn = f.fn(fn_path)
         for kind, val, m in part:
             short = fn_path.rsplit("::", 1)[1]
+            if kind == "bound":
+                # score(candidate, transposed, bound): with the bound at its maximum the result is the documented total; for any
+                # bound it is either that total or a cut: some value from the bound up to the total (a lower bound the caller
+                # must treat as "not better") - anything else is not the documented penalty
+                tot = model_total(m[0], m[1])
+                tot2 = model_total(m[0])
+                verdict = "ok"
+                for c, k_, v_ in val:
+                    if k_ == "diverge":
+                        verdict = ("panics", "bound %d" % c, v_)
+                        break
+                    if k_ != "ret":
+                        verdict = ("top", v_)
+                        break
+                    if v_ in (tot, tot2):
+                        continue
+                    if c <= v_ <= max(tot, tot2) and c <= max(tot, tot2):
+                        contract["bound"] += 1
+                        continue
+                    verdict = ("value", "bound %d: %s" % (c, tot), v_)
+                    break
+                if verdict == "ok":
+                    oks[short] = oks.get(short, 0) + 1
+                    contract["exact"] += 1
+                elif verdict[0] == "top":
+                    und.setdefault("%s does not fold: %s" % (fn_path, verdict[1]), []).append(_show_m(m[0]))
+                elif verdict[0] == "panics":
+                    bad("%s/panics" % short, _show_m(m[0]), "a score", verdict[2], where_fn(fn))
+                else:
+                    bad("%s/value" % short, _show_m(m[0]) + " | " + _show_m(m[1]) + " with " + verdict[1].split(":")[0], verdict[1], verdict[2], where_fn(fn))
+                continue
             if kind == "diverge":
                 bad("%s/panics" % short, _show_m(m[0] if with_t else m), "a score", val, where_fn(fn))
             elif kind != "ret":
@@ -412,6 +461,13 @@ def c11_r9(ctx, f, rid="C11.R9"):
                     bad("%s/value" % short, _show_m(m[0]) + (" | " + _show_m(m[1]) if with_t else "") if with_t else _show_m(m), want[0], val, where_fn(fn))
                 else:
                     oks[short] = oks.get(short, 0) + 1
+    try:
+        if contract["bound"]:
+            ctx.inventory["score_contract"] = "bound"  # score may return a cut (bound <= result <= total): C11.R8 plays it adversarially
+        elif contract["exact"]:
+            ctx.inventory["score_contract"] = "exact"
+    except Exception:  # noqa: BLE001
+        pass
     for short, n in sorted(oks.items()):
         ctx.ok(rid, "score::%s agrees with the model on %d symbols" % (short, n), n=n)
     for key, e in sorted(fails.items()):
